@@ -745,16 +745,29 @@ class ScriptGen:
         self.v.step(op, out)
         return out
 
+    def emit_id(self, op):
+        out = self.emit(op)
+        return int(out.split()[1]) if out and out.startswith("id ") else None
+
     def size(self):
         return len(self.v.nodes)
 
     def pick(self, bound=None):
+        """operand: recent nodes (depth), any node (sharing), rarely a constant; mostly nodes
+        whose truth table is not constant so that the functions stay interesting"""
         n = self.size() if bound is None else bound
-        if n <= 2 or self.rng.chance(1, 30):
+        if n <= 2 or self.rng.chance(1, 80):
             return self.rng.below(2)
-        if self.rng.chance(1, 2):
-            return n - 1 - self.rng.below(min(4, n - 2))
-        return self.rng.range(2, n - 1)
+        v = self.v
+        x = 0
+        for _ in range(4):
+            if self.rng.chance(1, 2):
+                x = n - 1 - self.rng.below(min(4, n - 2))
+            else:
+                x = self.rng.range(2, n - 1)
+            if (v.tab[x] & v.M) not in (0, v.M) or self.rng.chance(1, 8):
+                break
+        return x
 
     def complement(self, x):
         k, a = self.v.nodes[x]
@@ -767,17 +780,27 @@ class ScriptGen:
         return int(out.split()[1]) if out and out.startswith("id ") else x
 
     def join_spec(self, bound=None):
-        rng = self.rng
+        rng, v = self.rng, self.v
         xs = []
         for _ in range(rng.choice(JOIN_ARITY)):
             q = rng.below(100)
-            if xs and q < 12:
+            if xs and q < 8:
                 xs.append(rng.choice(xs))
-            elif xs and q < 24 and bound is None:
+            elif xs and q < 13 and bound is None:
                 xs.append(self.complement(rng.choice(xs)))
             else:
                 xs.append(self.pick(bound))
-        return "join %s%s" % (rng.choice(["and", "or"]), "".join(" %d" % x for x in xs))
+        op = rng.choice(["and", "or"])
+        if xs and rng.chance(4, 5):         # prefer the operator that keeps the function non-constant
+            a, o = v.full, 0
+            for x in xs:
+                a &= v.tab[x]
+                o |= v.tab[x]
+            if (a & v.M) == 0 and (o & v.M) != v.M:
+                op = "or"
+            elif (o & v.M) == v.M and (a & v.M) != 0:
+                op = "and"
+        return "join %s%s" % (op, "".join(" %d" % x for x in xs))
 
     def insert_random(self):
         rng, r = self.rng, self.rng.below(100)
@@ -830,11 +853,11 @@ class ScriptGen:
         r = rng.below(100)
         joins = [i for i, nd in enumerate(v.nodes) if nd[0] in "&|"]
         surfs = [i for i, nd in enumerate(v.nodes) if nd[0] == "S"]
-        if r < 35 and v.vols:
+        if r < 15 and v.vols:
             key = rng.choice(v.vols)
-        elif r < 65 and joins:
+        elif r < 40 and joins:
             key = rng.choice(joins)
-        elif r < 85 and surfs:
+        elif r < 88 and surfs:
             key = rng.choice(surfs)
         else:
             key = self.target()
@@ -928,11 +951,41 @@ class ScriptGen:
         rng.shuffle(first)
         for s in first[:rng.range(2, min(len(first), 5))]:
             self.emit("insert surface %d" % s)
+        if rng.chance(1, 2):
+            # CSG-like start: a few "shapes" (joins of literals over distinct surfaces), which the
+            # random inserts below then combine, negate and share
+            shapes = []
+            for _ in range(rng.range(2, 5)):
+                ss = list(self.surf)
+                rng.shuffle(ss)
+                lits = []
+                for s in ss[:rng.range(2, min(6, len(ss)))]:
+                    x = self.emit_id("insert surface %d" % s)
+                    if x is not None and rng.chance(1, 2):
+                        x = self.emit_id("insert negated %d" % x)
+                    if x is not None:
+                        lits.append(x)
+                x = self.emit_id("insert join %s %s" % ("and" if rng.chance(4, 5) else "or",
+                                                        " ".join(map(str, lits))))
+                if x is not None:
+                    shapes.append(x)
+            for _ in range(rng.range(1, 4)):
+                if len(shapes) >= 2:
+                    a, b = rng.choice(shapes), rng.choice(shapes)
+                    if rng.chance(1, 2):
+                        b = self.complement(b)
+                    x = self.emit_id("insert join %s %d %d" % (rng.choice(["and", "or"]), a, b))
+                    if x is not None:
+                        shapes.append(x)
         for _ in range(rng.range(6, 45 if self.deep else 28)):
             self.insert_random()
         for _ in range(rng.range(1, 4)):
             n = self.size() - 1 - rng.below(min(5, self.size() - 2)) if rng.chance(2, 3) \
                 else self.target()
+            if self.v.tab[n] in (0, self.v.full) and rng.chance(4, 5):
+                rich = [i for i in range(2, self.size()) if self.v.tab[i] not in (0, self.v.full)]
+                if rich:
+                    n = rich[-1 - rng.below(min(6, len(rich)))]
             self.emit("volume %d" % n)
         memo = {}
         self.build_size = self.size()
